@@ -47,6 +47,14 @@ def run(c, chk):
     fn = c.need('cfg_setopt')
     ex = sym.Explorer(c.modules, max_visits=2, mod_sets=c.mod_sets, max_paths=100000)
     paths = [p for p in ex.explore(fn) if p.end == 'ret']
+    # relatives of strtol() with the same result type on this target (LP64: long long, intmax_t and long are one 64-bit type, the
+    # IR has a single i64): same conversion, same ERANGE protocol - the rules below apply to them unchanged.  (A range test made
+    # on the wide result against LONG_MIN/LONG_MAX decides nothing here; only the ERANGE test does.)
+    SAME_TYPE = {'strtoll': 'strtol', 'strtoq': 'strtol', 'strtoimax': 'strtol', '__isoc23_strtol': 'strtol', '__isoc23_strtoll': 'strtol'}
+    for p in paths:
+        for e in p.events:
+            if e.kind == 'call' and e.name in SAME_TYPE:
+                e.name = SAME_TYPE[e.name]
     sites = {'strtol': [], 'strtod': []}
     for p in paths:
         for name in sites:
@@ -100,7 +108,7 @@ def run(c, chk):
             # R4.1: last event before the call among {calls, errno stores} must be errno := 0
             prev = [e for e in ev[:ci] if e.kind == 'call' or (e.kind == 'store' and e.addr == ('errno',))]
             ok1 = bool(prev) and prev[-1].kind == 'store' and prev[-1].val == sym.C0
-            if not ok1:
+            if not ok1 and any(sym.mentions(cn_, lambda v: v[0] == 'ld' and v[1] == ('errno',)) for cn_, _t, _i in p.assume):     # (errno that is never looked at needs no clearing)
                 r41 = False
                 w.setdefault('R4.1', p)
             # tests made on this path after the call
